@@ -279,7 +279,7 @@ def _run(chk):
     n_sweep = 2
     for i in range(-n_sweep, n_store):
         how = STREAM_KINDS[i % len(STREAM_KINDS)]
-        g = aasgen.Gen(rng, strings="json" if i % 2 else "plain", depth=3)
+        g = aasgen.Gen(rng, strings="json" if i % 2 else "plain", depth=3, wide_lists=True)
         try:
             # stores -2, -1: the deterministic sweep (every edge value of every XSD type in all four typed holders)
             store = g.sweep_store() if i < 0 else g.store(rng.randint(1, 4))
@@ -319,7 +319,7 @@ def _run(chk):
     terms, meta = [], []
     for i in range(n_obj):
         cls = TOP_CLASSES[i % len(TOP_CLASSES)]
-        g = aasgen.Gen(rng, strings="plain", depth=2)
+        g = aasgen.Gen(rng, strings="plain", depth=2, wide_lists=True)
         try:
             obj = g.obj(cls)
             if cls in MODELTYPE_CLASSES:
